@@ -63,3 +63,28 @@ def keep_for(F, root, vocab=None):
 
 def NF(F, m, vocab=None, tag="nf"):
     return inline.cached(F, m, keep=keep_for(F, m, vocab), tag=tag + ("|".join(vocab) if vocab else ""), hof=True, thread=True)
+
+
+def boundary_callers(F, fids, limit=8):
+    """the vocabulary-level functions through which the functions `fids` are reached: private helpers are replaced by their callers until
+    only functions that stay visible in normal forms (or roots without callers) remain. returns {instance id}"""
+    out = set(); seen = set()
+    frontier = list(fids)
+    callers = F.callers()
+    for _ in range(limit):
+        nxt = []
+        for f in frontier:
+            if f in seen:
+                continue
+            seen.add(f)
+            fi = F.inst[f]
+            if not fi.local or keep_for(F, fi)(fi):
+                out.add(f); continue
+            cs = [c for (c, k, bb) in callers.get(f, []) if k == "call"]
+            if not cs:
+                out.add(f)
+            nxt += cs
+        frontier = nxt
+        if not frontier:
+            break
+    return out
